@@ -68,7 +68,7 @@ func (e *Engine) verifyContract(c *Contract) (res *UnitResult) {
 	sig := fn.Type().(*types.Signature)
 	fr := &Frame{x: x, pkg: pkg, info: pkg.TypesInfo, contract: c, sig: sig, safe: c.NoPanic, fnName: fn.FullName(),
 		specNames: map[string]Val{}, loopOrd: map[string]int{}, atOrd: map[string]int{}, closureOrd: map[string]int{},
-		inlineStack: []string{fn.FullName()}, body: fd.Body}
+		inlineStack: []string{fn.FullName()}, body: fd.Body, unitLo: fd.Pos(), unitHi: fd.End()}
 	st := x.newState()
 	// parameters
 	bindParam := func(o *types.Var, cname string) {
@@ -267,6 +267,12 @@ func (e *Engine) verifyContract(c *Contract) (res *UnitResult) {
 		if !x.atHits[as] {
 			o := u.oblige("at["+normKey(as.Key)+"]:unmatched", "contract-stale", "at-clause key matches no statement or call of the function", fr.pos(fd.Pos()), "true", "false")
 			o.Clause = "contract-stale: at [" + as.Key + "] matches nothing in " + c.Key()
+		}
+	}
+	for _, ls := range c.Loops {
+		if !x.loopHits[ls] {
+			o := u.oblige("loop["+normKey(ls.Key)+"]:unmatched", "contract-stale", "loop clause key matches no loop of the function", fr.pos(fd.Pos()), "true", "false")
+			o.Clause = "contract-stale: loop [" + ls.Key + "] matches no loop in " + c.Key()
 		}
 	}
 	cov := u.oblige("vacuity:exit-reachable", "vacuity", "some execution reaches a normal exit", fr.pos(fd.Pos()), exit.pc, "true")
